@@ -1,20 +1,38 @@
 """C02 Request/response correlation: nobody ever receives someone else's answer.
-   spec/stream/XStreamConn.tla (+Trace): the client stream table of a multiplexed xprotocol connection (id allocation at
-     the 32-bit wrap, lookup/delete on response, local reset, connection reset) with three defect switches; every
-     operation history enumerated by TLC is replayed into the real stream.NewStreamClient (bolt) and validated by TLC.
+   spec/stream/XStreamConn.tla (+Trace): the client stream table of a multiplexed xprotocol connection (id allocation with
+     the width and signedness of the protocol's id field as constants, key -> frame field -> key round trip, lookup/delete on
+     response, local reset, connection reset) with five defect switches; every operation history enumerated by TLC is
+     replayed into the real stream.NewStreamClient of bolt, boltv2, tars and dubbo, the id counter seeded next to every
+     boundary of the protocol's id type (TABLE below), and validated by TLC.
    spec/stream/XHop.tla + XJudge.tla (+XHopTrace): the proxy hop (downstream id kept, fresh upstream id, id restored on
      the way back, error replies built from the shared request frame) with three defect switches; every schedule
      enumerated by TLC (requests on shared downstream connections with ids that collide with the proxy's upstream ids,
      answers in any order, late, duplicate, unknown ids, timeouts, upstream close) is realised on an in-process MOSN
-     (bolt proxy) with a scripted bolt upstream and raw bolt clients; plus randomised concurrent storms. Every frame a
+     (bolt proxy) with a scripted bolt upstream and raw bolt clients, a VERIF_SEED sample of them a second time with
+     bolt v2 on both sides (own codec package, buffers, id stamping); plus randomised concurrent storms. Every frame a
      client received is judged by TLC with XJudge!Verdict; the same judgement is applied to HTTP/1.1 clients over pooled
      ping-pong upstream connections whose exchanges are abandoned by timeouts."""
-import json, os, random, re, subprocess
+import json, os, random, re, subprocess, time
 from concurrent.futures import ThreadPoolExecutor
 import vlib
 
 LEVEL = "model_checking"
 FAM = "stream"
+
+# table layer: protocol, name of the seeding point, value the 64-bit stream counter is seeded with (the first ids are
+# base+1, base+2, ... in the protocol's id type), shift that puts this real boundary on the model's (see XStreamConnTrace),
+# trace cfg (Start / Signed of the model's id type: wrap of an unsigned type, no boundary of the type, sign flip, -1 -> 0)
+TABLE = [
+    ("bolt",   "wrap32", 2**32 - 2, 0, "XStreamConnTrace.cfg"),              # uint32: 2^32-1, 0, 1
+    ("bolt",   "sign31", 2**31 - 2, 8, "XStreamConnTrace_mid.cfg"),          # no boundary of uint32 (one of int32)
+    ("boltv2", "wrap32", 2**32 - 2, 0, "XStreamConnTrace.cfg"),
+    ("boltv2", "sign31", 2**31 - 2, 8, "XStreamConnTrace_mid.cfg"),
+    ("tars",   "sign31", 2**31 - 2, 8, "XStreamConnTrace_signed.cfg"),       # int32: 2^31-1, -2^31, -2^31+1
+    ("tars",   "wrap32", 2**32 - 2, 0, "XStreamConnTrace_signed_wrap.cfg"),  # int32: -1, 0, 1
+    ("dubbo",  "wrap64", 2**64 - 2, 0, "XStreamConnTrace.cfg"),              # uint64 (the counter itself wraps): 2^64-1, 0, 1
+    ("dubbo",  "sign63", 2**63 - 2, 8, "XStreamConnTrace_mid.cfg"),          # no boundary of uint64 (one of int64)
+    ("dubbo",  "wrap32", 2**32 - 2, 8, "XStreamConnTrace_mid.cfg"),          # no boundary of uint64 (one of a 32-bit type)
+]
 
 
 def mismatches(txt):
@@ -25,10 +43,11 @@ def mismatches(txt):
 
 
 def model_checks(ctx):
-    for mod in ("XStreamConn", "XHop"):
-        r = vlib.run_tlc(ctx, FAM, mod, mod + ".cfg")
+    for mod, cfg in (("XStreamConn", "XStreamConn.cfg"), ("XStreamConn", "XStreamConn_signed.cfg"), ("XStreamConn", "XStreamConn_signed_wrap.cfg"),
+                     ("XHop", "XHop.cfg")):
+        r = vlib.run_tlc(ctx, FAM, mod, cfg)
         ctx.add_tlc(r)
-    for mod, defects in (("XStreamConn", ("NoDelete", "ResetKeepsEntry", "ArrivalOrder")),
+    for mod, defects in (("XStreamConn", ("NoDelete", "ResetKeepsEntry", "ArrivalOrder", "KeyWiderThanWire", "SignLost")),
                          ("XHop", ("HijackIdFromFrame", "NoDelete", "ArrivalOrder", "RecycleWhileReferenced", "BodyAliasesReadBuffer", "LocalReplyKeepsOldBody", "DroppedResponseKeepsDecodeContext"))):
         for d in defects:
             cfg = "%s_defect_%s.cfg" % (mod, d)
@@ -61,35 +80,62 @@ def features(case):
     return f
 
 
-def run_shards(ctx, binary, mode, shards, extra, timeout):
+def start_shards(ctx, binary, mode, shards, extra, timeout, tag=None):
+    """Starts the shards of one driver mode; the returned function waits for them and returns (traces, results)."""
     procs = []
     env = vlib.go_env()
     env.update(VERIF_SEED=str(ctx.seed), VERIF_TIER=ctx.tier)
+    tag = tag or mode
     for s in range(shards):
-        t = os.path.join(ctx.tmp, "c02_%s_trace_%d.ndjson" % (mode, s))
-        r = os.path.join(ctx.tmp, "c02_%s_res_%d.jsonl" % (mode, s))
-        lg = open(os.path.join(ctx.tmp, "c02_%s_drv_%d.log" % (mode, s)), "w")
+        t = os.path.join(ctx.tmp, "c02_%s_trace_%d.ndjson" % (tag, s))
+        r = os.path.join(ctx.tmp, "c02_%s_res_%d.jsonl" % (tag, s))
+        lg = open(os.path.join(ctx.tmp, "c02_%s_drv_%d.log" % (tag, s)), "w")
         p = subprocess.Popen(["timeout", "-k", "10", str(timeout), binary, "-mode", mode, "-trace", t, "-results", r,
                               "-shard", str(s), "-shards", str(shards)] + extra,
                              stdout=lg, stderr=subprocess.STDOUT, env=env, cwd=ctx.tmp)
         procs.append((p, t, r, lg))
-    traces, results = [], []
-    for p, t, r, lg in procs:
-        rc = p.wait()
-        lg.close()
+    def wait():
+        traces, results = [], []
+        for p, t, r, lg in procs:
+            rc = p.wait()
+            lg.close()
+            if rc != 0:
+                raise vlib.Inconclusive("driver c02 -mode %s (%s) shard died rc=%s\n%s" % (mode, tag, rc, vlib.tail(lg.name)))
+            traces.append(t)
+            results += vlib.read_jsonl(r)
+        return traces, results
+    return wait
+
+
+def run_shards(ctx, binary, mode, shards, extra, timeout, tag=None):
+    return start_shards(ctx, binary, mode, shards, extra, timeout, tag)()
+
+
+def run_table(ctx, binary, tpath, shards, timeout, parallel=10):
+    """One driver process per (protocol, seeding point, shard); returns [(TABLE row, trace path)]."""
+    env = vlib.go_env()
+    env.update(VERIF_SEED=str(ctx.seed), VERIF_TIER=ctx.tier)
+    def one(job):
+        row, s = job
+        proto, at, base, shift, _ = row
+        stem = os.path.join(ctx.tmp, "c02_table_%s_%s_%d" % (proto, at, s))
+        with open(stem + ".log", "w") as lg:
+            rc = subprocess.call(["timeout", "-k", "10", str(timeout), binary, "-mode", "table", "-proto", proto, "-base", str(base),
+                                  "-shift", str(shift), "-cases", tpath, "-trace", stem + ".ndjson", "-results", stem + ".jsonl",
+                                  "-shard", str(s), "-shards", str(shards)], stdout=lg, stderr=subprocess.STDOUT, env=env, cwd=ctx.tmp)
         if rc != 0:
-            raise vlib.Inconclusive("driver c02 -mode %s shard died rc=%s\n%s" % (mode, rc, vlib.tail(lg.name)))
-        traces.append(t)
-        results += vlib.read_jsonl(r)
-    return traces, results
+            raise vlib.Inconclusive("driver c02 -mode table -proto %s -base %d shard died rc=%s\n%s" % (proto, base, rc, vlib.tail(stem + ".log")))
+        return row, stem + ".ndjson"
+    with ThreadPoolExecutor(max_workers=parallel) as ex:
+        return list(ex.map(one, [(row, s) for row in TABLE for s in range(shards)]))
 
 
-def validate(ctx, part, module, trace, reset_ev):
+def validate(ctx, part, module, trace, reset_ev, cfg=None):
     """TLC trace validation of one trace file; every MISMATCH / rejection becomes a failure of the run it lies in."""
     evs = vlib.read_jsonl(trace)
     if not evs:
         raise vlib.Inconclusive("empty trace %s" % trace)
-    v = vlib.validate_trace(ctx, FAM, module, module + ".cfg", trace, timeout=1500)
+    v = vlib.validate_trace(ctx, FAM, module, cfg or module + ".cfg", trace, timeout=1500)
     mm = mismatches(v["text"])
     if not v["accepted"] and not mm and v["matched"] is None:
         raise vlib.Inconclusive("trace validation of %s did not complete:\n%s" % (module, v["text"][-1500:]))
@@ -148,7 +194,7 @@ def run(ctx):
         for k, n in (("A", 400), ("B", 600), ("C", 450), ("D", 450), ("E", 500), ("rest", 600)):
             hcases += rng.sample(by.get(k, []), min(n, len(by.get(k, []))))
     else:
-        hcases = hall + hall6
+        hcases = (hall if len(hall) <= 120000 else rng.sample(hall, 120000)) + hall6    # thorough: a VERIF_SEED sample of 120000 of the 5-step schedules
     rng.shuffle(hcases)
     tpath = os.path.join(ctx.tmp, "c02_table_cases.jsonl")
     open(tpath, "w").write("\n".join(tcases) + "\n")
@@ -156,23 +202,45 @@ def run(ctx):
     with open(hpath, "w") as fh:
         for c in hcases:
             fh.write(json.dumps(c) + "\n")
+    # the same hop over bolt v2 (its own codec package, buffers and id stamping): a VERIF_SEED sample of the schedules above
+    h2cases = rng.sample(hcases, min(len(hcases), 480 if q else 3000))
+    h2path = os.path.join(ctx.tmp, "c02_hop2_cases.jsonl")
+    with open(h2path, "w") as fh:
+        for c in h2cases:
+            fh.write(json.dumps(c) + "\n")
 
     # ---- real executions
     binary = vlib.go_build("c02")
-    ttraces, tres = run_shards(ctx, binary, "table", 2 if q else 6, ["-cases", tpath], 900)
+    t0 = time.time()
+    ttraces = run_table(ctx, binary, tpath, 1 if q else 3, 900)
+    vlib.log("[c02] table drivers (%d connections kinds) %.1fs" % (len(TABLE), time.time() - t0)); t0 = time.time()
     htraces, hres = run_shards(ctx, binary, "hop", 12 if q else 14, ["-cases", hpath], 1700)
+    vlib.log("[c02] hop drivers %.1fs" % (time.time() - t0)); t0 = time.time()
+    # the bolt v2 schedules run next to the storms (9 driver processes, fewer than the hop phase)
+    wait_h2 = start_shards(ctx, binary, "hop", 4 if q else 8, ["-cases", h2path, "-xproto", "boltv2"], 1700, tag="hop2")
+    wait_s2 = start_shards(ctx, binary, "storm", 1 if q else 4, ["-rounds", "12" if q else "60", "-xproto", "boltv2"], 1700, tag="storm2")
     straces, sres = run_shards(ctx, binary, "storm", 4 if q else 12, ["-rounds", "25" if q else "120"], 1700)
+    s2traces, s2res = wait_s2()
+    h2traces, h2res = wait_h2()
+    vlib.log("[c02] storm drivers, storm and hop drivers over bolt v2 %.1fs" % (time.time() - t0)); t0 = time.time()
+    for t in h2traces + s2traces:
+        # the runs meant for bolt v2 must have spoken it: every frame the harness peers read says which version it was
+        if any(e.get("v2") is False for e in vlib.read_jsonl(t) if e["ev"] in ("urecv", "crecv")):
+            raise vlib.Inconclusive("a bolt v2 run carried bolt v1 frames (%s)" % t)
     ptraces, pres = run_shards(ctx, binary, "h1", 2 if q else 6, ["-rounds", "12" if q else "80"], 1700)
 
-    jobs = [("table", "XStreamConnTrace", t, "tnew") for t in ttraces] + \
+    jobs = [("table:%s:%s" % (row[0], row[1]), "XStreamConnTrace", t, "tnew", row[4]) for row, t in ttraces] + \
            [("hop", "XHopTrace", t, "run") for t in htraces] + [("storm", "XHopTrace", t, "run") for t in straces] + \
+           [("hop:boltv2", "XHopTrace", t, "run") for t in h2traces] + [("storm:boltv2", "XHopTrace", t, "run") for t in s2traces] + \
            [("h1", "XHopTrace", t, "run") for t in ptraces]
-    with ThreadPoolExecutor(max_workers=6) as ex:
+    t0 = time.time()
+    with ThreadPoolExecutor(max_workers=8) as ex:
         outs = list(ex.map(lambda j: validate(ctx, *j), jobs))
+    vlib.log("[c02] trace validation of %d files %.1fs" % (len(jobs), time.time() - t0))
 
     parts = {}
     sampled = set()
-    for (part, _, _, _), o in zip(jobs, outs):
+    for (part, *_), o in zip(jobs, outs):
         p = parts.setdefault(part, dict(events=0, runs=0))
         p["events"] += o["events"]; p["runs"] += o["runs"]
         ctx.cov["states"] += o["states"]; ctx.cov["transitions"] += o["generated"]
@@ -181,13 +249,13 @@ def run(ctx):
             sampled.add(part)
             ctx.sample({"part": part, "first_run": o["head"][:14]})
         for f in o["fails"]:
-            if part == "table":
-                sig = "C02:table:bolt:%s:%s" % (f["kind"], f["event"].get("ev"))
+            if part.startswith("table:"):
+                sig = "C02:%s:%s:%s" % (part, f["kind"], f["event"].get("ev"))   # C02:table:<proto>:<seeding point>:<kind>:<event>
             else:
                 sig = "C02:%s:%s" % (part, f["kind"])
             vlib.report_failure(ctx, sig, f)
 
-    summ = [r for r in hres + sres + pres if r.get("summary")]
+    summ = [r for r in hres + sres + pres + h2res + s2res if r.get("summary")]
     skipped = sum(r.get("skipped", 0) for r in summ)
     lost = sum(r.get("lost", 0) for r in summ)
     runs = [r for r in hres if not r.get("summary")]
@@ -200,6 +268,15 @@ def run(ctx):
                           schedules_on_reencoding_route=sum(1 for r in runs if r.get("reenc")),
                           upstream_error_answers_retried=sum(r.get("retried_error_answers", 0) for r in runs),
                           schedules_on_retry_route=sum(1 for r in runs if r.get("svc") == "c02r"), skipped_after_lost_waits=skipped, lost_waits=lost)
+    runs2 = [r for r in h2res if not r.get("summary")]
+    storms2 = [r for r in s2res if not r.get("summary")]
+    ctx.cov["hop_boltv2"] = dict(schedules_run=len(runs2), id_collisions_realised=sum(r.get("collisions", 0) for r in runs2),
+                                 schedules_with_unrealisable_step=sum(1 for r in runs2 if r.get("diverged", 0)),
+                                 response_vs_timeout_races_forced=sum(r.get("races", 0) for r in runs2),
+                                 decode_read_encode_interleavings_forced=sum(r.get("inters", 0) for r in runs2),
+                                 schedules_on_reencoding_route=sum(1 for r in runs2 if r.get("reenc")),
+                                 upstream_error_answers_retried=sum(r.get("retried_error_answers", 0) for r in runs2),
+                                 storm_rounds=len(storms2), storm_requests=sum(r.get("requests", 0) for r in storms2))
     ctx.cov["storm"] = dict(rounds=len(storms), requests=sum(r.get("requests", 0) for r in storms),
                             error_replies=sum(r.get("errors", 0) for r in storms),
                             id_collisions=sum(r.get("collisions", 0) for r in storms), connections_on_reencoding_route=sum(r.get("reenc_conns", 0) for r in storms),
@@ -207,16 +284,18 @@ def run(ctx):
     h1s = [r for r in pres if not r.get("summary")]
     ctx.cov["h1"] = dict(rounds=len(h1s), requests=sum(r.get("requests", 0) for r in h1s), error_replies=sum(r.get("errors", 0) for r in h1s),
                          broken_connections=sum(r.get("noreply", 0) for r in h1s))
-    ctx.cov["table"] = dict(histories=len(tcases))
+    ctx.cov["table"] = dict(histories=len(tcases), connections={"%s@%s" % (r[0], r[1]): str(r[2]) for r in TABLE},
+                            histories_replayed=len(tcases) * len(TABLE))
     ctx.cov["trace_events"] = {k: v["events"] for k, v in parts.items()}
-    ctx.cov["evaluations"] = len(tcases) + len(runs) + ctx.cov["storm"]["requests"] + ctx.cov["h1"]["requests"]
+    ctx.cov["evaluations"] = len(tcases) * len(TABLE) + len(runs) + len(runs2) + ctx.cov["hop_boltv2"]["storm_requests"] + ctx.cov["storm"]["requests"] + ctx.cov["h1"]["requests"]
     ctx.cov["distinct_nontrivial"] = len(tcases) + len([c for c in hcases if features(c)])
-    ctx.cov["exhaustive"] = not q
-    ctx.cov["rule"] = ("table: every history of <=%d ops (new/resp for any waiter's latest id/ghost id/reset/connreset) over 3 waiters, id counter "
-                       "seeded at 2^32-2, replayed into the real bolt client stream connection; hop: every schedule of 5 steps (thorough: plus a VERIF_SEED sample of 3000 of the 6-step schedules) over 3 requests "
+    ctx.cov["exhaustive"] = False
+    ctx.cov["rule"] = ("table: every history of <=%d ops (new/resp for any waiter's latest id/ghost id/reset/connreset) over 3 waiters, each replayed into the real client "
+                       "stream connection of bolt and boltv2 (counter seeded at 2^32-2 and 2^31-2), tars (2^31-2: sign flip of its int32 id, 2^32-2: -1 -> 0) and dubbo (2^64-2: the counter "
+                       "itself wraps, 2^63-2, 2^32-2); hop: every schedule of 5 steps (thorough: plus a VERIF_SEED sample of 3000 of the 6-step schedules) over 3 requests "
                        "on <=2 downstream connections (send with fresh or colliding id, long or short timeout, and for at most one request the instruction that the upstream answers it without a body / ans / dup / ghost / tmo / race, racegone = answer held in its handler while the timeout / the client's disconnect ends the request / inter = answer A decoded, answer B read and delivered on the same upstream connection, then A encoded / uerr = the upstream answers the current attempt with an error status and a body, which a retry_on route retries / close), "
                        "each on the plain route, on the route that adds headers both ways (proxy re-encodes from fields) and on the retry_on route "
-                       "from XHop.tla (%d), quick = VERIF_SEED samples of the collision+timeout+late/dup, answer-races-end, decode/read/encode, retried-error-answer and body-less-answer-next-to-dropped-response classes and of the rest; storm: VERIF_SEED-randomised "
+                       "from XHop.tla (%d); a VERIF_SEED sample of the schedules run (quick 480, thorough 3000) is realised a second time with bolt v2 on both sides of the proxy, plus storm rounds over bolt v2; quick = VERIF_SEED samples of the collision+timeout+late/dup, answer-races-end, decode/read/encode, retried-error-answer and body-less-answer-next-to-dropped-response classes and of the rest; storm: VERIF_SEED-randomised "
                        "pipelined clients on shared connections; h1: sequential HTTP/1.1 clients over pooled ping-pong upstream connections, 30%% of the "
                        "requests time out in the proxy before the upstream answers" % (5 if q else 6, len(hall)))
     if any(r.get("warm_failed") for r in summ) and not ctx.violations and not ctx.known_hits:
@@ -225,9 +304,13 @@ def run(ctx):
         raise vlib.Inconclusive("drivers skipped %d schedules after %d lost waits although no mismatch was found" % (skipped, lost))
     if runs and div * 2 > len(runs):
         raise vlib.Inconclusive("more than half of the schedules had an unrealisable step (%d/%d)" % (div, len(runs)))
-    ctx.assumptions += ["bolt v1 on both sides of the proxy; one upstream host, one multiplexed upstream connection per pool",
+    div2 = ctx.cov["hop_boltv2"]["schedules_with_unrealisable_step"]
+    if runs2 and div2 * 2 > len(runs2):
+        raise vlib.Inconclusive("more than half of the bolt v2 schedules had an unrealisable step (%d/%d)" % (div2, len(runs2)))
+    ctx.assumptions += ["hop, storm: bolt v1 (all schedules) or bolt v2 (sample) on both sides of the proxy; one upstream host, one multiplexed upstream connection per pool",
                         "requests meant to be answered carry a 20 s timeout, requests meant to time out 120 ms (storm: 40-80 ms) and the upstream answers those only after the client saw the error",
                         "an error reply is accepted as 'produced for the request' when the request had a short timeout, was outstanding during an upstream close, or was sent while the pool was reconnecting after a close",
-                        "table layer: responses are dispatched through stream.Client.OnData on the driver's goroutine (no concurrent Dispatch)",
-                        "the harness peers use their own bolt v1 codec (harness/xc02), not the proxy's",
+                        "table layer: responses are dispatched through stream.Client.OnData on the driver's goroutine (no concurrent Dispatch); the peer echoes the id field it read off the request frame (hand-written readers for all four protocols); "
+                        "request frames of dubbo and tars are made by decoding a template with the codec under test, tars payloads are packed with the TarsGo library",
+                        "the harness peers use their own bolt v1/v2 codec (harness/xc02), not the proxy's",
                         "a request without any reply is judged only in runs where the driver waited 30 s for it (first 3 such runs per driver process)"]
